@@ -393,6 +393,32 @@ func runC06(c *mon.Ctx) {
 		}
 	}
 	// ---- width
+	// ---- documents using near-miss spellings of the member names (underscore for
+	// dash, other case), compact and with white space around the colon, as member
+	// name and as string value
+	{
+		names := []string{"eat-profile", "psa-profile", "psa-client-id", "psa-nonce", "psa-software-components", "psa-instance-id", "psa-security-lifecycle"}
+		for ni, nm := range names {
+			for vi, variant := range []string{strings.ReplaceAll(nm, "-", "_"), strings.ToUpper(nm), strings.ReplaceAll(nm, "-", "")} {
+				idx++
+				if !c.Mine(idx) {
+					continue
+				}
+				for _, val := range []string{`"http://arm.com/psa/2.0.0"`, `"PSA_IOT_PROFILE_1"`, `1`, `null`} {
+					for _, colon := range []string{":", " : ", "\n:\t", " :"} {
+						colon = strings.NewReplacer("\\n", "\n", "\\t", "\t").Replace(colon)
+						a := g.Valid(1 + (ni+vi)%2)
+						a.Profile = nil
+						doc := string(a.WireJSON())
+						with := `{"` + variant + `"` + colon + val + `,` + doc[1:]
+						m.run("json", "near-miss-member-name", []byte(with))
+						m.run("json", "near-miss-member-name-as-value", []byte(`{"x"`+colon+`"`+variant+`",`+doc[1:]))
+					}
+				}
+				c.Sig(fmt.Sprintf("near-miss-name|%d|%d", ni, vi))
+			}
+		}
+	}
 	// ---- honest, VALID tokens that are merely large: one text claim of n characters
 	// (every rule is then evaluated on it: time and memory must stay linear)
 	for ni, n := range []int{1000, 8000, 30000, 64000} {
